@@ -101,3 +101,10 @@ Definition api_c11_pointers (v : val) : val :=
 (* [lines; start; end] -> the bytes *Pointer.load reads *)
 Definition api_c11_ptr_load (v : val) : val :=
   ofS (load_range (map c11_line (getL (argn 0 v))) (mkPtr false 0 (getZ (argn 1 v)) (getZ (argn 2 v)) [])).
+
+(* [strand; exons; cds; chrom] -> [code] | [0; seq; ref_start]   (get_cdna_sequence) *)
+Definition api_c11_cdna (v : val) : val :=
+  match cdna_sequence dna_complement (getZ (argn 0 v)) (c11_exons (argn 1 v)) (c11_cds (argn 2 v)) (getS (argn 3 v)) with
+  | Err e => VL [VZ (c11_err_code e)]
+  | Ok (s, r) => VL [VZ 0; ofS s; VZ r]
+  end.
